@@ -8,8 +8,9 @@
 (*    <<"DIVERGE", row id, feature, what>>.                                *)
 (*                                                                         *)
 (* row: id, prog <<[kind, parent, children, steps <<[cl_id, cl_layer]>>]>>,*)
-(*  cfg [show_skipped, dry], sw [show_skipped_always] (userdata switch of  *)
-(*  the reporter), end [escaped, status, step_status, hook_failed] (FINAL  *)
+(*  cfg [show_skipped, dry, retry (scenario_autoretry: a failing scenario   *)
+(*  runs a second time)], sw [show_skipped_always] (userdata switch of the *)
+(*  reporter), end [escaped, status, step_status, hook_failed] (FINAL  *)
 (*  statuses as recorded: the status classes are computed here),           *)
 (*  hooks_raised <<[name, el, pos]>> / cleanups_raised <<cid>> (the hook / *)
 (*  cleanup events of the run that raised), rep_features (features for     *)
@@ -31,9 +32,13 @@ RaisedCids(r) == SeqSet(r.cleanups_raised)
 \* a cleanup registered by a step of scenario s for the scenario's own layer raised
 CleanupRaised(r, el) == \E p \in DOMAIN r.prog[el].steps :
                            LET st == r.prog[el].steps[p] IN st.cl_id # 0 /\ st.cl_layer \in {"", "scenario"} /\ st.cl_id \in RaisedCids(r)
+OwnHookRaised(r, el) == \E k \in DOMAIN r.hooks_raised :
+                           r.hooks_raised[k].el = el /\ r.hooks_raised[k].name \notin {"before_step", "after_step"}
 ModelOf(r) ==
    [prog |-> r.prog, status |-> r.end.status, steps |-> r.end.step_status,
-    hookmsg |-> r.end.hook_failed,              \* public attribute: run_hook stored the HOOK-ERROR message on the element
+    \* run_hook stored the HOOK-ERROR message on the element: the public attribute hook_failed says so; with
+    \* scenario_autoretry the message of an earlier attempt stays (Scenario.run resets hook_failed, not error_message)
+    hookmsg |-> [el \in DOMAIN r.prog |-> r.end.hook_failed[el] \/ (r.cfg.retry /\ OwnHookRaised(r, el))],
     hookraised |-> [el \in DOMAIN r.prog |-> \E k \in DOMAIN r.hooks_raised : r.hooks_raised[k].el = el],
     cleanup |-> [el \in DOMAIN r.prog |-> CleanupRaised(r, el)]]
 
